@@ -436,13 +436,23 @@ def monitor_heap(script, out):
             return "%s: event_count %d but %d events were handled" % (name, f["count"], len(f["log"]))
     if bl["U"]["final"]["rem"]:
         return "unlimited run left %s undelivered" % bl["U"]["final"]["rem"]
+    # a run stops with events left only where its limit applies to the EARLIEST undelivered event
+    # (peek_time is the time of the next fetch)
+    L = tree_of_calls(s.calls)
+    for name in ("A", "B"):
+        f = bl[name]["final"]
+        if f["rem"]:
+            tmin = min(t for (t, _) in f["rem"])
+            if not applies(L, f["count"] + 1, tmin):
+                return "%s: stopped after %d events although the limit %s admits the next event at %d" % (name, f["count"], show_tree(L), tmin)
     # paused states of the stepped run: counters and the undelivered multiset
     B = bl["B"]["final"]
+    d_prev = 0
     for st in bl["B"]["steps"]:
         if st["op"][0] == 3:
             continue
         d = st["dispatched"]
-        if d > len(B["log"]):
+        if d < d_prev or d > len(B["log"]):
             return "dispatched counter %d exceeds the %d handled events" % (d, len(B["log"]))
         pending = ms_sub(ms(accepted(B["adds"][:st["nadds"]])), ms(handled(B["log"][:d])))
         if pending is None:
@@ -451,6 +461,12 @@ def monitor_heap(script, out):
             return "paused after %d events: len() = %d, undelivered events %d" % (d, st["remaining"], sum(pending.values()))
         if any(t < st["now"] for (t, _) in pending):
             return "paused at %d with an undelivered event before that time: %s" % (st["now"], sorted(pending))
+        o = st["op"]
+        if o[0] == 1 and not (d - d_prev == o[1] or (d - d_prev < o[1] and not pending)):
+            return "dispatch_n_events(%d) dispatched %d events, %d remained" % (o[1], d - d_prev, sum(pending.values()))
+        if o[0] == 2 and (any(t > o[1] for (_, t) in B["log"][d_prev:d]) or any(t <= o[1] for (t, _) in pending)):
+            return "dispatch_events_until(%d) dispatched %s and left %s" % (o[1], B["log"][d_prev:d], sorted(pending))
+        d_prev = d
     return None
 
 
